@@ -557,9 +557,12 @@ func (t *Throttle) Submit(f func() error) error {
 	pause := t.pause
 	pendingLimit := t.pendingLimit
 	pending := t.pending
-	tooMany := pendingLimit < pending
 	disabled := t.disabled
-	if !tooMany || disabled {
+	// A disabled throttle doesn't refuse.  (It used to count the
+	// submission as pending and then refuse it anyway, so the count
+	// never went down again.)
+	tooMany := pendingLimit < pending && !disabled
+	if !tooMany {
 		t.pending++
 	}
 	t.Unlock()
